@@ -38,6 +38,7 @@ class Scenario:
         self.enc = R.Enc(self.dag, **self.enc_kwargs)
         self.uf = U.UF(self.dag)
         self.assume = []          # z3 formulas (domain assumptions)
+        self.post_subst = {}      # z3 var name -> Fraction, substituted into the final formulas (after AD)
         self.results = []
         self.queries = 0
         self.solver_time = 0.0
@@ -74,15 +75,77 @@ class Scenario:
         a = lhs_val if lhs_val is not None else self.enc.out(lhs_out)
         goal = self.enc.ne_formula(a, rhs)
         fs = self.base(with_path) + list(extra) + [goal]
-        r = R.solve(name, fs, self.timeout)
-        self.queries += 1
-        self.solver_time += r.t
+        if self.post_subst:
+            zs = [(self.enc.var(k), R.Q(Fraction(v))) for k, v in self.post_subst.items()]
+            fs = [z3.substitute(f, *zs) for f in fs]
+            goal = fs[-1]
+        pre = None
+        if not z3.is_false(goal) and not z3.is_true(goal):
+            pre = self.witness_search(fs[:-1], a, rhs, tries=2)   # cheap bug-finding shortcut; never decides "holds"
+        if pre is not None:
+            r = R.Result(name, 'sat', 0.0, model=pre, detail='witness by exact evaluation')
+        else:
+            r = R.solve(name, fs, self.timeout)
+            self.queries += 1
+            self.solver_time += r.t
         if r.status == 'unsat':
             return self._rec(name, 'real', 'unsat', r.t, h=goal.hash() if not z3.is_false(goal) else 0, trivial=(r.detail == 'trivial'))
         if r.status == 'unknown':
-            return self._rec(name, 'real', 'unknown', r.t, detail=r.detail)
+            m = self.witness_search(fs[:-1], a, rhs)
+            if m is None:
+                return self._rec(name, 'real', 'unknown', r.t, detail=r.detail)
+            r.model = m
+            r.detail = 'solver gave no verdict in time; concrete witness found by exact evaluation at a rational point'
         rep = self.confirm_real(name, lhs_out, a, rhs, fs, r.model)
         return self._rec(name, 'real', 'sat', r.t, **rep)
+
+    def path_forced(self, name='recorded path is the only feasible one on the domain'):
+        """assumptions => path condition (so the single explored path covers the whole domain)."""
+        pf = self.path_formulas()
+        if not pf:
+            return self._rec(name, 'real', 'syntactic')
+        r = R.solve(name, self.base(False) + [z3.Not(z3.And(pf))], self.timeout)
+        self.queries += 1
+        self.solver_time += r.t
+        if r.status == 'unsat':
+            return self._rec(name, 'real', 'unsat', r.t, h=hash(tuple(f.hash() for f in pf)))
+        if r.status == 'unknown':
+            return self._rec(name, 'real', 'unknown', r.t, detail=r.detail)
+        return self._rec(name, 'real', 'sat', r.t, confirmed=False, model=r.model, note='another path is feasible: ' + str(self.dag.path)[:300])
+
+    def witness_search(self, fs, a, rhs, tries=12):
+        """After an inconclusive solver call: look for a concrete counterexample by exact rational evaluation.
+        Never used to claim that an obligation holds."""
+        rng = random.Random(987)
+        pos = set()
+        for f in self.assume:
+            if z3.is_gt(f) and z3.is_const(f.arg(0)):
+                pos.add(f.arg(0).decl().name())
+        names = list(self.enc.vars.keys())
+        for _ in range(tries):
+            env = {}
+            for nm in names:
+                if nm in self.post_subst:
+                    env[nm] = Fraction(self.post_subst[nm])
+                elif nm in pos or nm.startswith('inv_'):
+                    env[nm] = Fraction(rng.randint(8, 32), 16)
+                else:
+                    env[nm] = Fraction(rng.randint(-32, 32), 16)
+            try:
+                if self.eval_val(a, dict(env)) == self.eval_val(rhs, dict(env)):
+                    continue
+            except (ZeroDivisionError, KeyError):
+                continue
+            zs = [(v, R.Q(env[nm])) for nm, v in self.enc.vars.items()]
+            ok = True
+            for f in fs:
+                g = z3.simplify(z3.substitute(f, *zs))
+                if not z3.is_true(g):
+                    ok = False
+                    break
+            if ok:
+                return {k: '%d/%d' % (v.numerator, v.denominator) for k, v in env.items()}
+        return None
 
     def real_zero(self, name, lhs_out, with_path=True):
         return self.real_eq(name, lhs_out, R.VZERO, with_path)
@@ -116,6 +179,8 @@ class Scenario:
             v = None
             if nm in self.enc.subst:
                 v = Fraction(self.enc.subst[nm])
+            elif nm in self.post_subst:
+                v = Fraction(self.post_subst[nm])
             elif nm in self.enc.inv_vars and ('inv_' + nm) in model:
                 iv = frac_of(model['inv_' + nm])
                 v = 1 / iv if iv != 0 else None
